@@ -75,6 +75,8 @@ export const STRING_FORMATS = {
 export const NUMBER_FORMATS = {
   n1: (n) => n >= 0,
   n2: (n) => Number.isInteger(n),
+  // the same NAME as a string format: the two registries are independent
+  f1: (n) => n >= 1,
 };
 
 // ---------------------------------------------------------------- helpers
@@ -167,6 +169,14 @@ function observeProbe(parser, term, ops) {
   if (ops.has("validate")) {
     rec.val = tri(() => parser.validate(decode(term)));
     rec.vals = tri(() => parser.validate(decode(term), { disallowExtraProperties: true }));
+    // the same object in alternating modes: a verdict must not depend on the calls made before (hist = d, s, d, s)
+    const same = decode(term);
+    const strict = { disallowExtraProperties: true };
+    rec.hist = [tri(() => parser.validate(same)), tri(() => parser.validate(same, strict)),
+                tri(() => parser.validate(same)), tri(() => parser.validate(same, strict))].join("");
+    // and the other way round on another object (strict first)
+    const same2 = decode(term);
+    rec.hist2 = [tri(() => parser.validate(same2, strict)), tri(() => parser.validate(same2)), tri(() => parser.validate(same2, strict))].join("");
   }
   if (ops.has("parse")) {
     rec.sp = OPTS.map(({ name, o }) => {
